@@ -130,6 +130,11 @@ def worker(args, scratch):
                     else:
                         ln = r.randrange(0, 500)
                     msg = eid + hostile_text(r, ln)
+                    if size_class == "huge-one" and e == 1 and r.random() < 0.6:
+                        # dense multi-byte text: whatever byte offset some code cuts such an event at, it is inside a character for most alignments
+                        ch = r.choice(["é", "€", "😀"])
+                        msg = eid + "a" * r.randrange(0, 4) + ch * (ln // len(ch.encode()))
+                        bump("oversize_or_near_limit_events_of_dense_multibyte_text")
                     originals[eid] = msg
                     evs.append(make_event(msg, n))
                 files.append(evs)
@@ -238,10 +243,21 @@ def worker(args, scratch):
             bump("scenario:%s:%s" % (size_class, fp))
             if len(res["samples"]) < 2 and len(batches) > 1:
                 res["samples"].append(wit)
-        for p in sh.panics():
-            res["violations"].append(["panic:%s" % p.get("location"), p])
+        stuck = any(v[0].startswith("event-processing-did-not-terminate") for v in res["violations"])
+        try:
+            # a reader that spins without ever yielding keeps the (single-threaded, paused-clock) runtime busy: no RPC is answered any more
+            for p in sh.call("panics", timeout=10 if stuck else 120)["panics"]:
+                res["violations"].append(["panic:%s" % p.get("location"), p])
+        except common.Inconclusive:
+            if not stuck:
+                raise
+            res["counts"]["process_unresponsive_after_non_termination"] = 1
     finally:
-        sh.close(); ws.close(); imds.close()
+        try:
+            sh.close()
+        except Exception:  # noqa
+            pass
+        ws.close(); imds.close()
     return res
 
 
